@@ -8,6 +8,7 @@
 import AgeModel.Bech32
 import AgeModel.Extracted.Consts
 import Proofs.GoTieCodec
+import Proofs.GoTiePluginCodec
 import Proofs.GoTieKeys
 namespace AgeModel
 namespace Tie.C09
